@@ -54,6 +54,10 @@ def w_from_array(ctx, rng, idx):
     d = len(rows)
     if not np.any(x):
         return
+    if rng.random() < 0.06:
+        # arrays whose entries are all tiny or all huge (1e-170..1e-155, 1e145..1e150): normal doubles, but their squares are not
+        x = x * (10.0 ** float(rng.uniform(-170, -155)) if rng.random() < 0.7 else 10.0 ** float(rng.uniform(145, 150)))
+        kind += '_extreme_scale'
     mr = int(rng.integers(1, 5))
     thr = float(10 ** rng.uniform(-8, np.log10(0.5)))
     ctx.describe({'op': 'TT(ndarray)', 'shape': list(x.shape), 'kind': kind, 'max_rank': mr, 'threshold': thr})
@@ -181,7 +185,40 @@ def w_from_large_array(ctx, rng, idx):
     call('TT.__init__', lambda: tt.TT(x, threshold=thr), prop=P, tags=['large'])
 
 
+def w_large_rank(ctx, rng, idx):
+    """trains with a genuinely large bond (rank 256-320, both dimensions of the unfolded core >= 256) cut to a small cap (4-18), with a
+    nearly flat, a slowly decaying and an exactly flat singular spectrum: order 2 (where the bound is attained by the optimal
+    truncation) and order 3 with a per-bond list that caps only the large bond"""
+    cplx = bool(rng.integers(0, 2))
+    r = int(rng.integers(256, 321))
+    m, n = int(rng.integers(r, 340)), int(rng.integers(r, 340))
+    k = int(rng.integers(0, 3))
+    sv = [1.0 + 0.02 * rng.random(r), (1.0 + np.arange(r)) ** -0.15, np.ones(r)][k]
+    U = np.linalg.qr(gen.randn(rng, (m, r), cplx))[0]
+    V = np.linalg.qr(gen.randn(rng, (n, r), cplx))[0]
+    cap = int(rng.integers(4, r // 16 + 1))
+    order3 = rng.random() < 0.35
+    if order3:
+        m = 4 * (m // 4)
+        U = U[:m]
+        c0 = np.eye(4).reshape(1, 4, 1, 4).astype(U.dtype)
+        cores = [c0, (U * sv[None, :]).reshape(4, m // 4, 1, r), V.conj().T.reshape(r, n, 1, 1)]
+        caps = [1, np.inf, cap, 1]
+    else:
+        cores = [(U * sv[None, :]).reshape(1, m, 1, r), V.conj().T.reshape(r, n, 1, 1)]
+        caps = [cap, [1, cap, 1]][int(rng.integers(0, 2))]
+    ctx.describe({'op': 'ortho(max_rank) on a large bond', 'rank': r, 'dims': [m, n], 'cap': cap, 'spectrum': ['nearly_flat', 'slow_decay', 'flat'][k], 'order': 3 if order3 else 2, 'complex': cplx})
+    with probe.oracle():
+        t = tt.TT([c.copy() for c in cores])
+    call('TT.ortho', lambda: t.ortho(max_rank=caps), prop=P, tags=['large_rank'])
+    with probe.oracle():
+        t2 = tt.TT([c.copy() for c in cores])
+    call('TT.ortho_left', t2.ortho_left, prop=P, tags=['large_rank'])
+    call('TT.ortho_right', lambda: t2.ortho_right(max_rank=caps), prop=P, tags=['large_rank'])
+
+
 WORKLOADS = [
+    Workload('large_rank', w_large_rank, 3, 24),
     Workload('from_array', w_from_array, 320, 8000),
     Workload('ortho_trunc', w_ortho_trunc, 200, 5000),
     Workload('failpoint', w_failpoint, 40, 800),
